@@ -34,7 +34,7 @@ META = {
         '(append changes data; a stale memo makes object and file diverge). NOT decided: that re-parsing _contents '
         'yields original-followed-by-appended rows (parser behaviour, C01/C02), raw-mode equality, byte-level content.'),
     'floors': {'C03.W-GUARD': 1, 'C03.A-GUARD': 1, 'C03.MODES': 3, 'C03.REFUSAL-PURE': 6, 'C03.COHERENT': 5,
-               'C03.ROW-SIBLING': 1, 'C03.CASEKEY': 2, 'C03.MEMO-DATA': 3},
+               'C03.ROW-SIBLING': 1, 'C03.CASEKEY': 2, 'C03.MEMO-DATA': 3, 'C03.EMPTY-APPEND': 1},
 }
 
 
@@ -275,6 +275,47 @@ def check_coherent(ctx, fa, yc, method):
                       construct='late state write in %s' % method)
 
 
+def check_empty_append(ctx, fa, yc):
+    """Appending nothing only warns: the decision 'nothing to append' is taken on the rendered rows/pairs text
+    (the text that would be written), before the header comment is attached to it."""
+    f = fa.func
+    warns = [c for c in walk_local(fa.node) if isinstance(c, ast.Call) and call_name(c) == 'warn']
+    writes = [c for c in walk_local(fa.node) if isinstance(c, ast.Call) and isinstance(c.func, ast.Attribute) and c.func.attr == 'write' and c.args]
+    if not warns or not writes:
+        raise AnalysisError('C03: yanny.append: warn / write calls not found')
+    written = writes[0].args[0]
+    for w in warns:
+        st = w
+        while not isinstance(st, ast.stmt):
+            st = st._parent
+        dec = None
+        child = st
+        for a in ancestors(st):
+            if isinstance(a, ast.If):
+                dec = (a, any(child is b or child in list(ast.walk(b)) for b in a.body))
+                break
+            child = a
+        ok = False
+        why = 'the warning is not under an emptiness test'
+        if dec is not None and isinstance(written, ast.Name):
+            test = dec[0].test
+            tested = [n for n in ast.walk(test) if isinstance(n, ast.Name) and n.id == written.id]
+            if not tested:
+                why = 'emptiness is decided on `%s`, not on the rendered text `%s`: input that renders to no rows and no pairs still reaches the file' % (src(test), written.id)
+            else:
+                hdr = [v for d, v in fa.defs(tested[0]) if v is not None and any(
+                    isinstance(c, ast.Constant) and isinstance(c.value, str) and c.value.lstrip().startswith('#') for c in ast.walk(v))]
+                hdr += [d for d, v in fa.defs(tested[0]) if isinstance(d, ast.AugAssign) and any(
+                    isinstance(c, ast.Constant) and isinstance(c.value, str) and c.value.lstrip().startswith('#') for c in ast.walk(d.value))]
+                if hdr:
+                    why = 'the tested text already contains the "# Appended" header, so it is never empty'
+                else:
+                    ok = True
+                    why = 'decided on `%s` before the header is attached' % src(test)
+        ctx.check('C03.EMPTY-APPEND', ok, f, dec[0] if dec else st, 'append: "nothing to append" is %s' % why,
+                  msg='yanny.append: %s' % why, construct='empty-append decision: ' + (src(dec[0].test) if dec else 'none'))
+
+
 def row_loop(fa):
     """The `for col in columns` loop whose body appends rendered cells to the line list, with its
     enclosing row loop variable."""
@@ -411,6 +452,7 @@ def run(ctx):
     check_coherent(ctx, fa_a, yc, 'append')
     check_row_sibling(ctx, fa_w, fa_a)
     check_casekey(ctx, fa_a)
+    check_empty_append(ctx, fa_a, yc)
     check_memo_data(ctx, repo, yc)
     # write_ndarray_to_yanny reaches the file only through yanny.write
     calls_write = [c for c in walk_local(f_nd.node) if isinstance(c, ast.Call) and isinstance(c.func, ast.Attribute)
